@@ -175,8 +175,9 @@ class VmTuple(TlbScheme):
         if len(values) == 0:
             return Cell.empty()
         builder = Builder()
-        value = values.pop()
-        builder.store_cell(VmTupleRef.serialize(values))
+        # work on a shorter copy: popping from `values` emptied the caller's tuple
+        head, value = VmTuple(values.list[:-1]), values.list[-1]
+        builder.store_cell(VmTupleRef.serialize(head))
         builder.store_ref(VmStackValue.serialize(value))
         return builder.end_cell()
 
